@@ -402,120 +402,9 @@ def check_registers(report, facts, rule):
 
 
 def check_resolve_instructions(report, facts, rule):
-    """resolve_instructions: encoder = INSTRUCTIONS[item.name]; positional args in args() order; aq/rl as keywords for the
-    A classes; '<H' exactly for CompressedInstruction else '<I'."""
-    fn = facts.funcs.get('resolve_instructions')
-    if fn is None:
-        raise AnalysisError('anchor vanished: resolve_instructions')
-    src = fn
-    # encoder lookup
-    lookups = [n for n in ast.walk(src) if isinstance(n, ast.Subscript) and isinstance(n.value, ast.Name) and n.value.id == 'INSTRUCTIONS']
-    ok_lookup = any(unparse(n.slice) == 'item.name' for n in lookups)
-    report.check(ok_lookup, rule, 'encoder = INSTRUCTIONS[item.name]',
-                 lambda: Finding(rule, 'resolve_instructions', lookups[0] if lookups else 'INSTRUCTIONS',
-                                 'the encoder is not looked up by the item\'s own mnemonic', line=fn.lineno))
-    # format selection
-    fmts = {}
-    for n in ast.walk(src):
-        if isinstance(n, ast.If) and isinstance(n.test, ast.Call) and dotted(n.test.func) == 'isinstance':
-            cls = unparse(n.test.args[1]) if len(n.test.args) == 2 else None
-            for st in n.body:
-                if isinstance(st, ast.Assign) and isinstance(st.value, ast.Constant) and isinstance(st.value.value, str):
-                    fmts[('if', cls)] = (st.value.value, st)
-            for st in n.orelse:
-                if isinstance(st, ast.Assign) and isinstance(st.value, ast.Constant) and isinstance(st.value.value, str):
-                    fmts[('else', cls)] = (st.value.value, st)
-    want = {('if', 'CompressedInstruction'): '<H', ('else', 'CompressedInstruction'): '<I'}
-    for k, w in want.items():
-        got = fmts.get(k)
-        report.check(got is not None and got[0] == w, rule, 'struct format {} on the {} arm'.format(w, k[0]),
-                     lambda k=k, w=w, got=got: Finding(rule, 'resolve_instructions', got[1] if got else 'fmt',
-                                                       'instruction words must be packed as {!r} ({}-endian {}-bit) on the `{} isinstance(item, {})` arm, found {!r}'.format(
-                                                           w, 'little', 16 if w == '<H' else 32, k[0], k[1], got[0] if got else None),
-                                                       line=(got[1].lineno if got else fn.lineno)))
-    packs = [n for n in ast.walk(src) if isinstance(n, ast.Call) and dotted(n.func) == 'struct.pack']
-    fmt_names = {st.targets[0].id for (_, st) in fmts.values() if isinstance(st.targets[0], ast.Name)}
-    good_pack = (len(packs) == 1 and len(packs[0].args) == 2 and isinstance(packs[0].args[0], ast.Name)
-                 and packs[0].args[0].id in fmt_names and isinstance(packs[0].args[1], ast.Name))
-    if good_pack:
-        code_name = packs[0].args[1].id
-        code_defs = [n for n in ast.walk(src) if isinstance(n, ast.Assign) and isinstance(n.targets[0], ast.Name)
-                     and n.targets[0].id == code_name and n is not getattr(packs[0], '_parent', None)]
-        good_pack = bool(code_defs) and all(isinstance(d.value, ast.Call) and isinstance(d.value.func, ast.Name) for d in code_defs)
-    report.check(good_pack, rule, 'struct.pack(<selected format>, <encoder result>)',
-                 lambda: Finding(rule, 'resolve_instructions', packs[0] if packs else 'struct.pack',
-                                 'the encoded word is not packed with the selected format', line=fn.lineno))
-    # argument passing: every call of the looked-up encoder passes *<args() prefix> positionally, and the tail of
-    # args() as aq=, rl= keywords (in that order) when it is split off
-    enc_names = set()
-    defs = {}
-    for n in ast.walk(src):
-        if isinstance(n, ast.Assign) and len(n.targets) == 1:
-            t = n.targets[0]
-            if isinstance(t, ast.Name):
-                defs.setdefault(t.id, []).append(n)
-                if isinstance(n.value, ast.Subscript) and isinstance(n.value.value, ast.Name) and n.value.value.id == 'INSTRUCTIONS':
-                    enc_names.add(t.id)
-            elif isinstance(t, ast.Tuple):
-                for e in t.elts:
-                    nm = e.value if isinstance(e, ast.Starred) else e
-                    if isinstance(nm, ast.Name):
-                        defs.setdefault(nm.id, []).append(n)
-    calls = [n for n in ast.walk(src) if isinstance(n, ast.Call) and isinstance(n.func, ast.Name) and n.func.id in enc_names]
-    report.count('encoder call sites', len(calls))
-    if not calls:
-        raise AnalysisError('anchor vanished: encoder call in resolve_instructions')
-
-    def is_args_call(v):
-        return (isinstance(v, ast.Call) and isinstance(v.func, ast.Attribute) and v.func.attr == 'args'
-                and isinstance(v.func.value, ast.Name) and v.func.value.id == 'item')
-
-    for c in calls:
-        problem = None
-        if len(c.args) != 1 or not isinstance(c.args[0], ast.Starred) or not isinstance(c.args[0].value, ast.Name):
-            problem = 'positional arguments are not a single *<list from item.args()>'
-        else:
-            nm = c.args[0].value.id
-            ds = defs.get(nm, [])
-            kws = {kw.arg: kw.value for kw in c.keywords}
-            ok = False
-            for d in ds:
-                t = d.targets[0]
-                if isinstance(t, ast.Name) and is_args_call(d.value) and not kws:
-                    ok = True
-                if (isinstance(t, ast.Tuple) and is_args_call(d.value) and len(t.elts) == 3 and isinstance(t.elts[0], ast.Starred)
-                        and isinstance(t.elts[0].value, ast.Name) and t.elts[0].value.id == nm
-                        and all(isinstance(e, ast.Name) for e in t.elts[1:])):
-                    a, b = t.elts[1].id, t.elts[2].id
-                    if set(kws) == {'aq', 'rl'} and isinstance(kws['aq'], ast.Name) and isinstance(kws['rl'], ast.Name) \
-                            and kws['aq'].id == a and kws['rl'].id == b:
-                        ok = True
-            if not ok:
-                problem = 'arguments do not follow args() order (prefix positional, last two as aq=, rl=)'
-        report.check(problem is None, rule, 'encoder call ' + unparse(c),
-                     lambda c=c, problem=problem: Finding(rule, 'resolve_instructions', c, problem, line=c.lineno))
-    # the keyword form is used exactly for the classes whose args() ends in aq, rl
-    kw_calls = [c for c in calls if c.keywords]
-    for c in kw_calls:
-        test = None
-        cur = c
-        for p in parents_of(c):
-            if isinstance(p, ast.If) and cur in ast.walk(p) and any(cur is x or cur in ast.walk(x) for x in p.body):
-                test = p.test
-                break
-        classes = set()
-        if test is not None:
-            for n in ast.walk(test):
-                if isinstance(n, ast.Call) and dotted(n.func) == 'isinstance' and len(n.args) == 2:
-                    classes.add(unparse(n.args[1]))
-        want_cls = {cn for cn in facts.subclasses('Instruction') if (facts.args_attrs(cn) or [])[-2:] == ['aq', 'rl']}
-        report.check(classes == want_cls, rule, 'aq=/rl= keyword call guarded by isinstance of {}'.format(sorted(want_cls)),
-                     lambda: Finding(rule, 'resolve_instructions', c, 'keyword form used for {} but classes whose args() end in aq, rl are {}'.format(
-                         sorted(classes), sorted(want_cls)), line=c.lineno))
-
-
-def parents_of(node):
-    p = getattr(node, '_parent', None)
-    while p is not None:
-        yield p
-        p = getattr(p, '_parent', None)
+    """resolve_instructions, over its paths (helpers / closures / higher-order skeletons inlined): for every concrete Instruction
+    class the word packed is the result of INSTRUCTIONS[item.name] called with the elements of item.args() in order (the last two
+    as aq=, rl= exactly for the classes whose args() ends in aq, rl), packed '<H' exactly for CompressedInstruction else '<I'.
+    See packrule.py."""
+    from .packrule import check_pack_rule
+    check_pack_rule(report, facts, rule)
